@@ -4,7 +4,11 @@ TLC decides every verdict (spec/Fields.tla, MC_Fields.tla, TraceFields.tla).
 This module only (1) asks TLC for the programs to run (MC_Fields, mode "enum"),
 (2) drives the real gfapy and records what it did -- result classes, written
 characters, object identities, booleans returned by gfapy's own == -- and
-(3) hands the record to TraceFields."""
+(3) hands the record to TraceFields.
+
+Second round (DESIGN 10.9): C18 also on lines DERIVED by library operations and with an operation
+in the level comparison; C19 equality after TLC-enumerated read programs on subjects with unparsed
+fields; C20 tags of lines of a Gfa written through every write path (kind "gval")."""
 import json, os, random, signal, sys, time, itertools, copy
 from multiprocessing import Pool as MPool
 
@@ -104,6 +108,9 @@ def mk(d):
         return [gfapy.Alignment(x, version="gfa1") for x in a]
     if k == "lastpos":
         return gfapy.LastPos(a, valid=True)
+    if k == "pylit":                    # a Python literal (dicts with non-string keys, tuples, ...)
+        import ast
+        return ast.literal_eval(a)
     raise MachineryError("unknown value descriptor %r" % (d,))
 
 
@@ -293,7 +300,7 @@ def run_mc(mode, fields, maxlen, name, workers=None):
     pf = os.path.join(wd, "params.json")
     with open(pf, "w") as fh:
         json.dump(fields_param(fields, mode, maxlen), fh)
-    cfg = MC_ENUM_CFG if mode == "enum" else MC_PROPS_CFG
+    cfg = MC_ENUM_CFG if mode in ("enum", "renum") else MC_PROPS_CFG
     rc, out = tlc.run_tlc("MC_Fields", cfg, wd, env={"FIELDS_FILE": pf}, workers=workers or NCPU,
                           heap="6g", timeout=3000)
     tlc.check_ok(rc, out, "MC_Fields/" + mode)
@@ -319,6 +326,18 @@ def enum_programs(fields, maxlen, name, workers=None):
     for raw in tlc.parse_tuples(out, "CASE"):
         v = tlc.tla_value(raw)
         progs.add((v[1], v[2], tuple(v[3])))
+    return sorted(progs), tlc.stats(out)
+
+
+def enum_read_programs(maxlen, name, workers=None):
+    """-> sorted list of tuples of read calls ("get.clone", ...) printed by TLC (MC_Fields, mode renum)."""
+    out = run_mc("renum", [field_by_key("i:xi")], maxlen, name, workers)
+    progs = set()
+    for raw in tlc.parse_tuples(out, "RCASE"):
+        progs.add(tuple(tlc.tla_value(raw)[1]))
+    n = sum(len(READ_CALLS) ** k * 2 ** k for k in range(1, maxlen + 1))
+    if len(progs) != n:
+        raise MachineryError("MC_Fields/renum printed %d read programs, expected %d" % (len(progs), n))
     return sorted(progs), tlc.stats(out)
 
 
@@ -392,7 +411,7 @@ def run_program(job):
         raise MachineryError("cannot build base line %r at level %d: %s" % (fd["line"], lvl, exc))
     linelvl = line.vlevel
     evs, vals = _run_calls(line, fd, codes, offset, lax, force)
-    return {"id": cid, "lvl": lvl, "f": key, "dt": fd["dt"], "conn": False, "linelvl": linelvl,
+    return {"id": cid, "lvl": lvl, "f": key, "dt": fd["dt"], "conn": False, "linelvl": linelvl, "origin": "text",
             "init": "absent" if fd["kind"] == "newtag" else "valid", "ev": evs}, vals
 
 
@@ -677,7 +696,7 @@ def run_gfa_program(job):
         text0 = project.safe_str(line)
         evs, vals = _run_calls(line, fd, codes, offset, False, [])
         out.append(({"id": 0, "lvl": lvl, "f": fd["key"], "dt": fd["dt"], "conn": True, "linelvl": linelvl,
-                     "init": "valid", "ev": evs},
+                     "origin": "text", "init": "valid", "ev": evs},
                     {"vals": vals, "doc": docname, "path": path, "subject": label, "codes": list(codes),
                      "offset": offset, "seqfield": seqfield, "text": text0}))
     return out
@@ -756,6 +775,200 @@ def check_gfa_programs(out, tier, seed, progs=None):
 
 
 # --------------------------------------------------------------------------
+# C18 (b''): the same programs on DERIVED lines (Fields.tla PART 5 a'): lines the library makes
+# from the lines of a Gfa built at level k -- merge_linear_paths, multiply, to_gfa1 / to_gfa2 of
+# the Gfa and of a line, clone, complement, the split header, a renamed segment, a line that
+# was disconnected and added again.
+
+_D1 = ["H\tVN:Z:1.0", "H\txx:i:1", "S\ta\t*\tLN:i:10", "S\tb\t*\tLN:i:20", "S\tc\t*\tLN:i:30",
+       "L\ta\t+\tb\t+\t4M", "L\tb\t+\tc\t+\t2M", "S\td\tACGT", "S\te\tGGTT", "L\td\t+\te\t-\t2M",
+       "S\tf\tACGT", "S\tg\tAC", "S\th\tTTTT", "L\tf\t+\tg\t+\t1M", "L\tf\t+\th\t+\t1M",
+       "C\tf\t+\tg\t+\t1\t2M", "P\tp\tf+,g+\t1M", "# note"]
+_D1S = ["S\ta\t*", "S\tb\t*", "S\tc\tAC", "L\ta\t+\tb\t+\t*", "L\tb\t-\tc\t+\t*", "S\td\t*\tLN:i:4",
+        "S\te\tGGTT\tLN:i:4", "L\td\t-\te\t-\t1M"]
+_D2 = ["H\tVN:Z:2.0", "H\txx:i:1", "S\ta\t10\t*", "S\tb\t20\t*", "S\tc\t30\t*",
+       "E\te1\ta+\tb+\t6\t10$\t0\t4\t4M", "E\te2\tb+\tc+\t18\t20$\t0\t2\t2M", "S\td\t4\tACGT", "S\te\t4\tGGTT",
+       "E\te3\td+\te-\t2\t4$\t2\t4$\t2M", "S\tf\t4\tACGT", "S\tg\t2\tAC", "S\th\t4\tTTTT",
+       "E\te4\tf+\tg+\t3\t4$\t0\t1\t1M", "E\te5\tf+\th+\t3\t4$\t0\t1\t1M", "G\tg1\td+\tf-\t10\t*",
+       "F\ta\tx+\t0\t2\t0\t2\t*", "O\to\tf+ e4+ g+", "U\tu\ta e1 g1", "X\tcustom\t1", "# note"]
+DDOCS = {
+    "d1": dict(version="gfa1", lines=_tagged(_D1), mult=[("f", 2), ("a", 3)], rename=("a", "zz")),
+    "d1.no-sequences": dict(version="gfa1", lines=_tagged(_D1S), mult=[("c", 2)], rename=("b", "zz")),
+    "d2": dict(version="gfa2", lines=_tagged(_D2), mult=[("f", 2), ("a", 3)], rename=("a", "zz")),
+}
+DERIVATIONS = ["merge", "merge.tracking", "multiply", "convert-gfa", "convert-line", "clone", "complement",
+               "split-header", "rename", "readd"]
+
+
+def _real(lines):
+    return [o for o in lines if o is not None and not getattr(o, "virtual", False)]
+
+
+def derive(gfa, docname, op):
+    """Apply the derivation -> (origin kind of Fields!DeriveKinds, resulting Gfa or None, derived lines,
+    Gfa whose text / graph is the outcome)."""
+    doc = DDOCS[docname]
+    v1 = doc["version"] == "gfa1"
+    if op == "merge":
+        gfa.merge_linear_paths()
+        return "merge", None, _real(gfa.lines), gfa
+    if op == "merge.tracking":
+        gfa.merge_linear_paths(enable_tracking=True, merged_name="short")
+        return "merge", None, _real(gfa.lines), gfa
+    if op == "multiply":
+        for name, n in doc["mult"]:
+            gfa.multiply(name, n)
+        return "multiply", None, _real(gfa.lines), gfa
+    if op == "convert-gfa":
+        g2 = gfa.to_gfa2() if v1 else gfa.to_gfa1()
+        return "convert-gfa", g2, _real(g2.lines), g2
+    if op == "convert-line":
+        res = []
+        for o in _real(gfa.lines):
+            # (a line that has no counterpart in the other version is refused or gives nothing)
+            r, x, _ = guarded(lambda: o.to_gfa2() if v1 else o.to_gfa1())
+            if r == "ok" and x is not None and x is not o:
+                res.append(x)
+        return "convert-line", None, res, gfa
+    if op == "clone":
+        return "clone", None, [o.clone() for o in _real(gfa.lines)], gfa
+    if op == "complement":
+        return "complement", None, [o.complement() for o in _real(gfa.lines) if o.record_type == "L"], gfa
+    if op == "split-header":
+        return "split-header", None, list(gfa.headers), gfa
+    if op == "rename":
+        old, new = doc["rename"]
+        gfa.segment(old).name = new
+        return "rename", None, _real(gfa.lines), gfa
+    if op == "readd":
+        o = [x for x in _real(gfa.lines) if x.record_type in ("L", "E")][0]
+        o.disconnect()
+        gfa.add_line(o)
+        return "readd", None, [o], gfa
+    raise MachineryError("unknown derivation " + op)
+
+
+def _derived_field(o, i, seqfield):
+    """The field the program acts on: the custom tag xx the documents put on every line (a new
+    tag xx when the derivation did not carry it over), a comment's content, a sequence."""
+    rt = o.record_type
+    if rt == "#":
+        return _gfield("comment:content", "content"), "%d:#.content" % i, "valid"
+    # (not the sequence of a GFA1 segment with an LN tag: a sequence that is valid on its own but of
+    # another length is an inconsistent LINE, reported by validate())
+    if rt == "S" and seqfield and not (o.version == "gfa1" and "LN" in o.tagnames):
+        k = "sequence_gfa1:sequence" if o.version == "gfa1" else "sequence_gfa2:sequence"
+        return _gfield(k, "sequence"), "%d:S.sequence" % i, "valid"
+    if "xx" in o.tagnames:
+        return _gfield("i:xi", "xx"), "%d:%s.xx" % (i, rt), "valid"
+    return _gfield("Z:nz", "xx"), "%d:%s.xx(new)" % (i, rt), "absent"
+
+
+def run_derived_program(job):
+    """job = (docname, derivation, lvl, codes, offset, seqfield) -> [(case, info)], one per derived line
+    (plus one record without calls for a derived Gfa: its level)."""
+    docname, op, lvl, codes, offset, seqfield = job
+    gfapy = _load_gfapy()
+    doc = DDOCS[docname]
+    r, gfa, exc = guarded(lambda: gfapy.Gfa(list(doc["lines"]), vlevel=lvl), limit=60.0)
+    if r != "ok":
+        raise MachineryError("cannot build %s at level %d: %s" % (docname, lvl, exc))
+    r, got, exc = guarded(lambda: derive(gfa, docname, op), limit=60.0)
+    if r != "ok":
+        return []          # the operation was refused: judged by the level comparison (kind "lvl")
+    origin, g2, lines, _ = got
+    out = []
+    if g2 is not None:
+        out.append(({"id": 0, "lvl": lvl, "f": "i:xi", "dt": "i", "conn": True, "linelvl": g2.vlevel, "origin": origin,
+                     "init": "valid", "ev": []},
+                    {"vals": [], "doc": docname, "op": op, "subject": "the derived Gfa", "codes": [], "offset": offset,
+                     "seqfield": seqfield, "text": "(Gfa)"}))
+    for i, o in enumerate(lines):
+        if o.record_type == "H" and op != "split-header":
+            continue
+        if o.record_type == "H" and "xx" not in o.tagnames:
+            continue
+        fd, label, init = _derived_field(o, i, seqfield)
+        cs = codes
+        if init == "absent":
+            cs = tuple(c for c in codes if not c.startswith("set.") or c[4:] in fd["classes"])
+            if not any(c.startswith("set.") for c in cs):
+                cs = ()
+        linelvl = o.vlevel
+        text0 = project.safe_str(o)
+        evs, vals = _run_calls(o, fd, cs, offset, False, [])
+        out.append(({"id": 0, "lvl": lvl, "f": fd["key"], "dt": fd["dt"], "conn": bool(o.is_connected()),
+                     "linelvl": linelvl, "origin": origin, "init": init, "ev": evs},
+                    {"vals": vals, "doc": docname, "op": op, "subject": label, "codes": list(cs), "offset": offset,
+                     "seqfield": seqfield, "text": text0}))
+    return out
+
+
+def check_derived_programs(out, tier, seed, progs=None):
+    rnd = random.Random(seed + 1818)
+    if progs is None:
+        progs, _ = enum_programs([field_by_key("i:xi")], 2 if tier == "quick" else 3, "fields-mc-denum")
+    codes = sorted({p[2] for p in progs if p[1] == "i:xi"})
+    short = [c for c in codes if len(c) <= 2]
+    longer = [c for c in codes if len(c) == 3]
+    jobs = []
+    for docname in sorted(DDOCS):
+        for op in DERIVATIONS:
+            for lvl in range(4):
+                if tier == "quick":
+                    chosen = list(_GPROG_ALWAYS) + rnd.sample(short, 1)
+                else:
+                    chosen = short + rnd.sample(longer, min(len(longer), 40))
+                for k, c in enumerate(dict.fromkeys(chosen)):
+                    jobs.append((docname, op, lvl, c, k % 2, bool((k // 2) % 2)))
+    res = _pmap(run_derived_program, jobs)
+    cases, infos = [], []
+    for lst in res:
+        for c, info in lst:
+            c["id"] = len(cases)
+            cases.append(c)
+            infos.append(info)
+    rejects, n = validate_cases("prog", cases, "fields-dprog")
+    out.add_cov(states=n, transitions=n, traces_validated_against_impl=n, derived_line_program_cases=n,
+                derivations=len(DERIVATIONS), derivation_documents=len(DDOCS),
+                derived_subject_lines=len({(i["doc"], i["op"], i["subject"]) for i in infos}),
+                derivations_that_ran=len({(i["doc"], i["op"], c["lvl"]) for c, i in zip(cases, infos)}))
+    groups = {}
+    for cid, (clauses, at) in sorted(rejects.items()):
+        c, i = cases[cid], infos[cid]
+        rt = i["subject"].split(":")[-1]
+        call = c["ev"][at - 1]["k"] if at else "-"
+        key = (",".join(clauses), i["op"], rt, call, c["linelvl"] == c["lvl"])
+        g = groups.setdefault(key, dict(n=0, levels=set(), where=set(), ex=None))
+        g["n"] += 1
+        g["levels"].add(c["lvl"])
+        g["where"].add("%s/%s/%s" % (i["doc"], i["op"], i["subject"]))
+        rank = (len(c["ev"]), i["doc"], c["lvl"])
+        if g["ex"] is None or rank < g["rank"]:
+            g["ex"], g["rank"] = (c, i, at), rank
+    for key, g in sorted(groups.items()):
+        c, i, at = g["ex"]
+        calls = ["%s%s -> %s%s" % (e["k"], ("(%s %s)" % (e["c"], json.dumps(v[0]))) if e["k"] == "set" else "",
+                                  e["res"], (":" + v[1]) if v[1] else "") for e, v in zip(c["ev"], i["vals"])]
+        out.violations.append(dict(
+            family=FAM, kind="dprog", clauses=key[0].split(","),
+            input="doc=%s derivation=%s subject=%s program=%s" % (i["doc"], i["op"], i["subject"], ",".join(i["codes"])),
+            api="Gfa + %s + Line.set/get/field_to_s/str/validate" % i["op"], levels=sorted(g["levels"]),
+            occurrences=g["n"], where=sorted(g["where"])[:12],
+            dprogram=dict(doc=i["doc"], op=i["op"], lvl=c["lvl"], codes=i["codes"], offset=i["offset"],
+                          seqfield=i["seqfield"], subject=i["subject"]),
+            what="%s: %r, made by %s from %s built at vlevel %d, has vlevel %d: %s; %d cases, e.g. %s" % (
+                key[0], i["text"], i["op"], i["doc"], c["lvl"], c["linelvl"], "; ".join(calls), g["n"],
+                sorted(g["where"])[:3])))
+    if cases:
+        k = len(cases) // 2
+        out.samples.append({"derived": [infos[k]["doc"], infos[k]["op"], cases[k]["lvl"]], "subject": infos[k]["subject"],
+                            "line.vlevel": cases[k]["linelvl"], "program": infos[k]["codes"],
+                            "observed": [[e["res"], e["mark"]] for e in cases[k]["ev"]]})
+    return n
+
+
+# --------------------------------------------------------------------------
 # C18 (a): the same document at levels 0..3
 
 EXTRA_DOCS = [
@@ -787,8 +1000,13 @@ def _split_written(text):
     return out
 
 
+LVL_OPS = ["merge", "merge.tracking", "multiply", "convert-gfa", "rename", "readd"]
+
+
 def run_doc(job):
-    cid, doc = job
+    """job = (id, document lines[, name of a DDOCS document, derivation applied after the load])."""
+    cid, doc = job[:2]
+    docname, op = (job[2], job[3]) if len(job) > 2 else (None, None)
     gfapy = _load_gfapy()
     rs = []
     for lvl in range(4):
@@ -800,16 +1018,21 @@ def run_doc(job):
                 if r != "ok":
                     break
                 nadded += 1
-        lines, dig = [], "-"
+        lines, dig, opres = [], "-", "-"
         if r == "ok":
-            r, text, exc = guarded(lambda: str(gfa))
-            if r == "ok":
-                lines = _split_written(text)
-                r2, obs, exc2 = guarded(lambda: project.observe(gfa, project.Pool(), ()), limit=60.0)
-                dig = obs.get("dig", "!" + obs.get("broken", "?")) if r2 == "ok" else "!" + exc2
-        rs.append({"res": r, "lines": lines, "dig": dig, "exc": exc, "nadded": nadded})
-    return {"id": cid, "r": [{k: v for k, v in x.items() if k in ("res", "lines", "dig")} for x in rs]}, \
-           [[x["res"], x["exc"], x["nadded"]] for x in rs]
+            target = gfa
+            if op is not None:
+                opres, got, exc = guarded(lambda: derive(gfa, docname, op), limit=60.0)
+                target = got[3] if opres == "ok" else None
+            if target is not None:
+                r, text, exc = guarded(lambda: str(target))
+                if r == "ok":
+                    lines = _split_written(text)
+                    r2, obs, exc2 = guarded(lambda: project.observe(target, project.Pool(), ()), limit=60.0)
+                    dig = obs.get("dig", "!" + obs.get("broken", "?")) if r2 == "ok" else "!" + exc2
+        rs.append({"res": r, "op": opres, "lines": lines, "dig": dig, "exc": exc, "nadded": nadded})
+    return {"id": cid, "r": [{k: v for k, v in x.items() if k in ("res", "op", "lines", "dig")} for x in rs]}, \
+           [[x["res"], x["exc"], x["nadded"]] + ([x["op"]] if op is not None else []) for x in rs]
 
 
 def level_docs(tier, seed):
@@ -837,17 +1060,33 @@ def level_docs(tier, seed):
 
 def check_levels(out, tier, seed):
     docs = level_docs(tier, seed)
-    res = _pmap(run_doc, list(enumerate(docs)))
+    jobs = list(enumerate(docs))
+    # a library operation after the load (Fields.tla PART 5 a'): the documents of the derived-line programs
+    opjobs = []
+    for docname in sorted(DDOCS):
+        for op in LVL_OPS:
+            opjobs.append((len(jobs) + len(opjobs), DDOCS[docname]["lines"], docname, op))
+    res = _pmap(run_doc, jobs + opjobs)
+    docs = docs + [j[1] for j in opjobs]
+    ops = [None] * len(jobs) + [(j[2], j[3]) for j in opjobs]
     cases = [r[0] for r in res]
     rejects, n = validate_cases("lvl", cases, "fields-lvl")
     nontriv = sum(1 for c, info in res if c["r"][3]["res"] == "ok" and len(docs[c["id"]]) >= 2)
-    out.add_cov(traces_validated_against_impl=n, level_documents=len(docs), level_documents_accepted_at_3=nontriv)
+    out.add_cov(traces_validated_against_impl=n, level_documents=len(jobs), level_documents_accepted_at_3=nontriv,
+                level_documents_with_operation=len(opjobs),
+                operations_done_at_every_level=sum(1 for c, _ in res[len(jobs):] if all(x["op"] == "ok" for x in c["r"])))
     for cid, (clauses, _) in sorted(rejects.items()):
         c, info = res[cid]
-        out.violations.append(dict(
+        v = dict(
             family=FAM, kind="lvl", clauses=list(clauses), input="\n".join(docs[cid]), api="Gfa.add_line x vlevel 0..3",
             doc=docs[cid], per_level=info,
-            what="%s: %r -> %s" % (",".join(clauses), docs[cid], info)))
+            what="%s: %r -> %s" % (",".join(clauses), docs[cid], info))
+        if ops[cid]:
+            v.update(api="Gfa.add_line + %s x vlevel 0..3" % ops[cid][1], opdoc=ops[cid][0], op=ops[cid][1],
+                     input="document %s then %s" % ops[cid],
+                     what="%s: document %s, then %s: per level [load, exception, lines added, operation] = %s" % (
+                         ",".join(clauses), ops[cid][0], ops[cid][1], info))
+        out.violations.append(v)
     if docs:
         c, info = res[len(EXTRA_DOCS) - 4]
         out.samples.append({"document": docs[c["id"]], "per_level": info})
@@ -876,6 +1115,7 @@ def check_c18(out, tier, seed):
     out.add_cov(table_strings_checked_against_lex=check_table())
     progs = check_programs(out, tier, seed)
     check_gfa_programs(out, tier, seed, progs)
+    check_derived_programs(out, tier, seed, progs)
     check_levels(out, tier, seed)
     out.assumptions += [
         "TLC and the TLA+ semantics of spec/Fields.tla, MC_Fields.tla, TraceFields.tla",
@@ -887,6 +1127,10 @@ def check_c18(out, tier, seed):
         "(lazily parsed J/B/f values are written verbatim at level 0)",
         "lines obtained from a Gfa: documents GDOCS x creation paths GPATHS of harness/fam_fields.py; the level "
         "a constructed line must work at is the level of its Gfa (validation.rst)",
+        "derived lines: documents DDOCS x operations DERIVATIONS of harness/fam_fields.py (merge_linear_paths, multiply, "
+        "to_gfa1/to_gfa2 of Gfa and line, clone, complement, split header, rename, disconnect + add); a derived line "
+        "works at the level of the Gfa / line it was made from, and on a valid document the outcome of an operation "
+        "does not depend on the level",
         "level 0: a Get (or the marked str) may replace an invalid encoded value by its decoded object "
         "(doc/tutorial/validation.rst: no validation at level 0)",
     ]
@@ -966,15 +1210,124 @@ def clone_subjects(tier):
     return subs
 
 
+# J values that are not what their JSON text parses to (clone() copies J values through JSON)
+PY = lambda a: {"py": "pylit", "a": a}
+NONROUNDTRIP_J = [PY("{1: 'one', 2: [1, 2]}"), PY("[(1, 2), {3: None}]"), PY("{True: 1}"),
+                  PY("{1.5: 'x'}"), PY("{'a': {1: {2: (3,)}}}")]
+APISET_LINES = [("S\tA\t*\tLN:i:10", "gfa1"), ("E\te1\ta+\tb-\t0\t2\t4\t6$\t2M", "gfa2"), ("H\tVN:Z:1.0", None),
+                ("X\tcustom\t1", "gfa2")]
+# further tags whose declared datatype is not the default datatype of their value
+DT_DECLARED = 'S\tD\t*\txk:J:[1, 2, 3]\txl:J:[0.5, 1.5]\txc:A:c\txe:H:1A2B\txm:Z:12\txn:f:3'
+
+
+def clone_variants(tier):
+    """Further clone subjects, for the clone / read-program cases only: lines built at vlevel 0
+    (fields stay encoded until first read), at vlevel 3, lines whose fields were assigned their
+    own encoded form (strings), J tags set through the API to values that are not their own JSON
+    round trip, tags with a declared non-default datatype."""
+    gfapy = _load_gfapy()
+    subs = []
+    docs = [DT_LINES1 + [DT_DECLARED], DT_LINES2, HDR_DOC, HDR_DOC2] + PLACEHOLDER_DOCS
+    for name, cat in sorted(CATALOGUES.items()):
+        if tier != "quick" or name in ("gfa1", "gfa2", "gfa1s", "gfa2s"):
+            docs.append(_greedy_doc([text_of(x) for x in cat["lines"]]))
+    lines = [(ln, "gfa1") for ln in DT_LINES1 + [DT_DECLARED]] + [(ln, "gfa2") for ln in DT_LINES2] + \
+            [(ln, None) for ln in HDR_DOC[:-1]]
+    plan = [(0, None), (1, "strassign"), (0, "strassign")] if tier == "quick" else \
+           [(0, None), (3, None), (0, "strassign"), (1, "strassign"), (2, "strassign"), (3, "strassign")]
+    for vl, prep in plan:
+        for ln, ver in lines:
+            subs.append(dict(mode="line", text=ln, version=ver, vlevel=vl, prep=prep))
+        for doc in docs:
+            def build():
+                gfa = gfapy.Gfa(vlevel=vl)
+                for ln in doc:
+                    gfa.add_line(ln)
+                return gfa
+            r, gfa, _ = guarded(build)
+            if r != "ok":
+                continue
+            for i, o in enumerate(gfa.lines):
+                if o.record_type != "H":
+                    subs.append(dict(mode="conn", doc=doc, idx=i, vlevel=vl, prep=prep))
+            if any(ln.startswith("H\t") for ln in doc):
+                subs.append(dict(mode="conn", doc=doc, idx="header", vlevel=vl, prep=prep))
+    subs.append(dict(mode="line", text=DT_DECLARED, version="gfa1", vlevel=1, prep=None))
+    subs.append(dict(mode="conn", doc=DT_LINES1 + [DT_DECLARED], idx=len(DT_LINES1), vlevel=1, prep=None))
+    for vl in ((1, 0) if tier == "quick" else (0, 1, 2, 3)):
+        for text, ver in APISET_LINES:
+            for k, val in enumerate(NONROUNDTRIP_J):
+                for dt in ("J", None):
+                    sets = [("js", dt, val)] + ([("jt", "J", NONROUNDTRIP_J[(k + 1) % len(NONROUNDTRIP_J)])] if dt else [])
+                    subs.append(dict(mode="line", text=text, version=ver, vlevel=vl, prep="apiset", sets=sets))
+                    if text.startswith("S\t"):
+                        subs.append(dict(mode="conn", doc=[text, "S\tB\t*", "L\tA\t+\tB\t-\t*"], idx=0, vlevel=vl,
+                                         prep="apiset", sets=sets))
+    return subs
+
+
+def read_program_jobs(subs, progs, tier, first_id=0):
+    """(id, subject, read program): in the quick tier three of TLC's read programs per subject -- one
+    that starts with a Get on one copy, two others, rotating through all of them --, all of them
+    in the thorough tier for the variants and a rotating dozen for the rest."""
+    gets = [p for p in progs if p[0].startswith("get.")]
+    others = [p for p in progs if not p[0].startswith("get.")]
+    jobs = []
+    for i, sub in enumerate(subs):
+        if tier == "quick":
+            chosen = [gets[i % len(gets)], others[(2 * i) % len(others)], others[(2 * i + 1) % len(others)]]
+        elif sub.get("variant"):
+            chosen = progs
+        else:
+            chosen = [gets[(i + j) % len(gets)] for j in range(4)] + [others[(8 * i + j) % len(others)] for j in range(8)]
+        for p in chosen:
+            jobs.append((first_id + len(jobs), sub, p))
+    return jobs
+
+
 def get_subject(sub):
     gfapy = _load_gfapy()
     if sub["mode"] == "line":
-        ln = gfapy.Line(sub["text"], version=sub["version"]) if sub["version"] else gfapy.Line(sub["text"])
-        return None, ln
-    gfa = gfapy.Gfa(vlevel=sub.get("vlevel", 1))
-    for ln in sub["doc"]:
-        gfa.add_line(ln)
-    return gfa, (gfa.header if sub["idx"] == "header" else gfa.lines[sub["idx"]])
+        kw = {"vlevel": sub.get("vlevel", 1)}
+        if sub["version"]:
+            kw["version"] = sub["version"]
+        gfa, ln = None, gfapy.Line(sub["text"], **kw)
+    else:
+        gfa = gfapy.Gfa(vlevel=sub.get("vlevel", 1))
+        for x in sub["doc"]:
+            gfa.add_line(x)
+        ln = gfa.header if sub["idx"] == "header" else gfa.lines[sub["idx"]]
+    prep = sub.get("prep")
+    if prep == "strassign":
+        _assign_encoded(ln, gfa is not None)
+    elif prep == "apiset":
+        for tag, dt, val in sub["sets"]:
+            if dt:
+                ln.set_datatype(tag, dt)
+            ln.set(tag, mk(val))
+    return gfa, ln
+
+
+def _assign_encoded(line, connected):
+    """Assign to every field its own encoded form (the string field_to_s gives): a valid
+    assignment that leaves the field stored as a string until it is next read.  Not done for the
+    identifier and the reference fields of a connected line (renaming / reconnecting are other
+    operations) nor for a repeated header tag."""
+    gfapy = _load_gfapy()
+    skip = set()
+    if connected:
+        skip = set(getattr(line.__class__, "REFERENCE_FIELDS", []) or [])
+        nf = getattr(line.__class__, "NAME_FIELD", None)
+        if nf:
+            skip.add(nf)
+    done = 0
+    for fn in list(line.positional_fieldnames) + list(line.tagnames):
+        if fn in skip or isinstance(line._data.get(fn), gfapy.FieldArray):
+            continue
+        text = line.field_to_s(fn)
+        line.set(fn, text)
+        done += 1
+    return done
 
 
 def _text(x):
@@ -986,17 +1339,46 @@ def _tri(r, v):
     return ("T" if v else "F") if r == "ok" else r
 
 
+READ_CALLS = ("get", "write", "str", "validate", "vfield")
+
+
+def _read_all(line, k):
+    """One read-only call (Fields!ReadOps) on every field of the line -> worst result class."""
+    names = list(line.positional_fieldnames) + list(line.tagnames)
+    if k == "get":
+        calls = [lambda fn=fn: line.get(fn) for fn in names]
+    elif k == "write":
+        calls = [lambda fn=fn: line.field_to_s(fn) for fn in names]
+    elif k == "vfield":
+        calls = [lambda fn=fn: line.validate_field(fn) for fn in names]
+    elif k == "str":
+        calls = [lambda: str(line)]
+    elif k == "validate":
+        calls = [lambda: line.validate()]
+    else:
+        raise MachineryError("unknown read call " + k)
+    worst, excs = "ok", []
+    for f in calls:
+        r, _, e = guarded(f)
+        if r != "ok":
+            excs.append(e)
+            if worst != "FOREIGN":
+                worst = r
+    return worst, excs
+
+
 def run_clone(job):
-    cid, sub = job
+    cid, sub = job[:2]
+    prog = job[2] if len(job) > 2 else ()          # read calls after the cloning: ("get.clone", ...)
     r0, pair, exc0 = guarded(lambda: get_subject(sub))
     if r0 != "ok":
         return None, {"exc": [exc0]}
     gfa, orig = pair
     ro, to, _ = guarded(lambda: str(orig))
     rc, cl, exc = guarded(lambda: orig.clone())
-    case = {"id": cid, "conn": gfa is not None, "cl": rc,
+    case = {"id": cid, "conn": gfa is not None, "cl": rc, "lvl": int(sub.get("vlevel", 1)),
             "o": {"res": ro, "pos": [], "tags": []}, "c": {"res": "ok", "pos": [], "tags": []},
-            "eq": "F", "isconn": "F", "gfa": "none"}
+            "eq": "F", "eqr": "F", "isconn": "F", "gfa": "none", "steps": []}
     info = {"rt": getattr(orig, "record_type", "?"), "virtual": bool(getattr(orig, "virtual", False)),
             "text": to if ro == "ok" else "", "exc": [exc]}
     if ro == "ok":
@@ -1013,10 +1395,22 @@ def run_clone(job):
         r, v, exc = guarded(lambda: cl == orig)
         info["exc"].append(exc)
         case["eq"] = _tri(r, v is True)
+        r, v, exc = guarded(lambda: orig == cl)
+        info["exc"].append(exc)
+        case["eqr"] = _tri(r, v is True)
         r, v, exc = guarded(lambda: cl.is_connected())
         case["isconn"] = _tri(r, bool(v))
         r, v, exc = guarded(lambda: cl.gfa)
         case["gfa"] = ("none" if v is None else "some") if r == "ok" else r
+        tc0 = _text(cl)
+        for code in prog:
+            k, t = code.split(".")
+            res, excs = _read_all(cl if t == "clone" else orig, k)
+            info["exc"] += excs
+            r1, v1, _ = guarded(lambda: cl == orig)
+            r2, v2, _ = guarded(lambda: orig == cl)
+            case["steps"].append({"k": k, "t": t, "res": res, "eq": _tri(r1, v1 is True), "eqr": _tri(r2, v2 is True),
+                                  "same": "T" if (_text(cl) == tc0 and _text(orig) == (to if ro == "ok" else None)) else "F"})
     return case, info
 
 
@@ -1182,21 +1576,48 @@ def check_c19(out, tier, seed):
     res = [r for r in res if r[0] is not None]
     for i, r in enumerate(res):
         r[0]["id"] = i
-    rejects, n1 = validate_cases("clone", [r[0] for r in res], "fields-clone")
+    # the read programs (TLC: MC_Fields mode renum) on the subjects and on the variants
+    rprogs, srp = enum_read_programs(2, "fields-mc-renum", max(2, NCPU // 4))
+    variants = clone_variants(tier)
+    vres0 = _pmap(run_clone, list(enumerate(variants)))
+    variants = [dict(v, variant=True) for v, r in zip(variants, vres0) if r[0] is not None]
+    rjobs = read_program_jobs(subs + variants, rprogs, tier)
+    rres = _pmap(run_clone, rjobs)
+    rjobs = [j for j, r in zip(rjobs, rres) if r[0] is not None]
+    rres = [r for r in rres if r[0] is not None]
+    nbase = len(res)
+    allres = res + [r for r in vres0 if r[0] is not None] + rres
+    allsubs = subs + variants + [j[1] for j in rjobs]
+    allprogs = [()] * (len(subs) + len(variants)) + [j[2] for j in rjobs]
+    for i, r in enumerate(allres):
+        r[0]["id"] = i
+    rejects, n1 = validate_cases("clone", [r[0] for r in allres], "fields-clone")
     rts = sorted({(i["rt"], c["conn"], i["virtual"]) for c, i in res})
-    seen = set()
-    for cid, (clauses, _) in sorted(rejects.items()):
-        c, info = res[cid]
-        if (tuple(clauses), info["rt"], c["conn"]) in seen:
+    unparsed_reads = sum(1 for (c, i), sub in zip(allres, allsubs)
+                         if c["steps"] and (sub.get("vlevel", 1) == 0 or sub.get("prep")))
+    seen = {}
+    for cid, (clauses, at) in sorted(rejects.items()):
+        c, info = allres[cid]
+        sub, prog = allsubs[cid], allprogs[cid]
+        key = (tuple(clauses), info["rt"], c["conn"], sub.get("prep") or "")
+        if key in seen:
+            seen[key]["occurrences"] += 1
+            seen[key]["levels"] = sorted(set(seen[key]["levels"]) | {sub.get("vlevel", 1)})
             continue
-        seen.add((tuple(clauses), info["rt"], c["conn"]))
-        out.violations.append(dict(
+        how = {"strassign": ", every field assigned its encoded string", "apiset": ", J tags set through the API: %s" % (
+            json.dumps(sub.get("sets")),)}.get(sub.get("prep"), "")
+        v = dict(
             family=FAM, kind="clone", clauses=list(clauses), input=info["text"],
-            api="Line.clone (%s)" % ("connected" if c["conn"] else "unconnected"), subject=subs[cid],
+            api="Line.clone (%s)%s" % ("connected" if c["conn"] else "unconnected", " + reads " + ",".join(prog) if prog else ""),
+            subject=sub, reads=list(prog), rejected_call=at, occurrences=1, levels=[sub.get("vlevel", 1)],
             observed=c, exc=info["exc"],
-            what="%s: clone of %r (%s): %s %s" % (",".join(clauses), info["text"],
-                                                 "connected" if c["conn"] else "unconnected",
-                                                 {k: c[k] for k in ("cl", "eq", "isconn", "gfa")}, info["exc"])))
+            what="%s: clone of %r (%s, vlevel %d%s)%s: %s %s" % (
+                ",".join(clauses), info["text"], "connected" if c["conn"] else "unconnected", sub.get("vlevel", 1), how,
+                (" then " + "; ".join("%s -> %s, ==: %s/%s, texts kept: %s" % (p, st["res"], st["eq"], st["eqr"], st["same"])
+                                      for p, st in zip(prog, c["steps"]))) if prog else "",
+                {k: c[k] for k in ("cl", "eq", "eqr", "isconn", "gfa")}, [e for e in info["exc"] if e]))
+        seen[key] = v
+        out.violations.append(v)
     found = _pmap(list_edits, list(enumerate(subs)))
     jobs = []
     for lst in found:
@@ -1230,9 +1651,11 @@ def check_c19(out, tier, seed):
             subject=sub, target=target, edit=ed, observed=c, exc=info["exc"], occurrences=g["n"],
             what="%s: %r (%s) edit %s of the %s: other copy %r -> %r; gfa changed: %s (%d edits of this field of this record type)" % (
                 key[0], text, sub["mode"], json.dumps(ed), target, c["ob"], c["oa"], c["gb"] != c["ga"], g["n"])))
-    out.add_cov(states=s1[1] + n1 + n2, transitions=s1[0] + n1 + n2, spec_states_statements=s1[1],
+    out.add_cov(states=s1[1] + n1 + n2 + srp[1], transitions=s1[0] + n1 + n2 + srp[0], spec_states_statements=s1[1],
                 traces_validated_against_impl=n1 + n2, clone_subjects=len(subs), edit_cases=len(jobs),
-                edits_that_changed_their_target=effective, record_kinds=len(rts))
+                edits_that_changed_their_target=effective, record_kinds=len(rts),
+                clone_variant_subjects=len(variants), read_programs_enumerated=len(rprogs),
+                clone_read_program_cases=len(rjobs), read_cases_on_unparsed_fields=unparsed_reads)
     for c, i in res[:2]:
         out.samples.append({"clone of": i["text"], "observed": {k: c[k] for k in ("cl", "eq", "isconn", "gfa")}})
     for (c, i), j in list(zip(eres, jobs))[:2]:
@@ -1244,6 +1667,10 @@ def check_c19(out, tier, seed):
         "attribute edits, FieldArray, API set/delete); sharing is observed through the written text",
         "subjects: every line of the catalogues of harness/core.py, connected (two arrival orders) and not, "
         "placeholders, lines carrying every tag datatype, a multi-line header, custom records, comments",
+        "equality after reads: read programs (<= 2 calls of get / field_to_s / str / validate / validate_field on "
+        "every field of one copy) enumerated by TLC; variants of the subjects: built at vlevel 0 (fields stay "
+        "encoded until read), every non-reference field assigned its own encoded string, J tags set through the "
+        "API to Python values that are not their own JSON round trip (non-string keys, tuples)",
     ]
 
 
@@ -1459,6 +1886,205 @@ def run_value(job):
     return case, {"exc": exc, "text": text}
 
 
+# ---- the same values on a tag of a line that belongs to a Gfa, written through every path
+# (Fields.tla PART 5 c).  Carriers: the header (H), the header with the tag added twice (HH), a
+# connected segment (gS), a connected link (gL).
+
+GCARRIERS = ["H", "HH", "gS", "gL"]
+GDOC = ["H\tVN:Z:1.0", "S\tA\tACGT", "S\tB\tACGT", "L\tA\t+\tB\t-\t2M"]
+_CARRIER_PREFIX = {"H": ("H\t",), "HH": ("H\t",), "gS": ("S\tA\t",), "gL": ("L\tA\t", "E\t")}
+
+
+def _same_value(a, b):
+    gfapy = _load_gfapy()
+    if isinstance(a, gfapy.FieldArray):
+        a = list(a._data)
+    if isinstance(b, gfapy.FieldArray):
+        b = list(b._data)
+    if isinstance(a, float) and isinstance(b, float):
+        return a == b and repr(a) == repr(b)
+    return bool(a == b)
+
+
+def _occurrences(text, carrier, tag):
+    """The written forms of the tag in the lines of the carrier's record within text, and whether
+    one of these lines carries the INVALID remark."""
+    occ, mark = [], False
+    pre = _CARRIER_PREFIX[carrier]
+    for ln in text.split("\n"):
+        if not ln.startswith(pre):
+            continue
+        f = ln.split("\t")
+        occ += [x for x in f[1:] if x.startswith(tag + ":")]
+    if "\t# INVALID" in text:
+        mark = True
+    return occ, mark
+
+
+def _carrier_of(gfa, carrier):
+    if carrier in ("H", "HH"):
+        return gfa.header
+    if carrier == "gS":
+        return gfa.segment("A")
+    ls = [x for x in gfa.lines if x.record_type in ("L", "E") and not x.virtual]
+    return ls[0]
+
+
+def _gfa_write_paths(gfa, line, carrier, wd):
+    """[(path name, function returning the text written, how to parse it back)]"""
+    def to_file():
+        os.makedirs(wd, exist_ok=True)
+        fn = os.path.join(wd, "fields-gval-%d.gfa" % os.getpid())
+        try:
+            gfa.to_file(fn)
+            with open(fn) as fh:
+                return fh.read()
+        finally:
+            if os.path.exists(fn):
+                os.unlink(fn)
+    paths = [("str(line)", lambda: str(line), "line"),
+             ("str(gfa)", lambda: str(gfa), "gfa"),
+             ("gfa.lines", lambda: "\n".join(str(x) for x in gfa.lines), "gfa"),
+             ("to_file", to_file, "gfa"),
+             ("to_gfa1_s", lambda: gfa.to_gfa1_s(), "gfa"),
+             ("to_gfa2_s", lambda: gfa.to_gfa2_s(), "gfa"),
+             ("to_gfa2", lambda: str(gfa.to_gfa2()), "gfa"),
+             ("clone", lambda: str(line.clone()), "line")]
+    if carrier in ("H", "HH"):
+        paths.insert(3, ("gfa.headers", lambda: "\n".join(str(x) for x in gfa.headers), "gfa"))
+    if carrier == "HH":
+        # the merged header object holding a repeated tag is written by the Gfa as one-tag H lines;
+        # its own one-line form (all values in one H line) is not a line a Gfa writes or reads
+        paths = [x for x in paths if x[2] == "gfa"]
+    return paths
+
+
+def run_gvalue(job):
+    cid, lvl, mode, val, carrier, how = job
+    import math
+    gfapy = _load_gfapy()
+    tag = "xx"
+    exc = []
+    r, gfa, e = guarded(lambda: gfapy.Gfa(list(GDOC), vlevel=lvl))
+    if r != "ok":
+        raise MachineryError("cannot build the carrier document at level %d: %s" % (lvl, e))
+    line = _carrier_of(gfa, carrier)
+    v = mk(val["py"])
+    nadd = 2 if carrier == "HH" else 1
+    case = {"id": cid, "lvl": lvl, "mode": mode, "v": val["v"], "set": "ok", "dt": "-", "val": "-", "vf": "-",
+            "w": "-", "wchars": [], "s": "-", "mark": False,
+            "rb": {"res": "-", "dt": "-", "eq": "-", "eqv": "-"},
+            "carrier": carrier, "add2": "-", "nadd": 1, "outs": []}
+    info = {"exc": exc, "vias": [], "carrier": carrier, "how": how}
+    dtarg = None if mode == "new" else mode
+    if carrier in ("H", "HH") and how == 0:
+        r, _, e = guarded(lambda: line.add(tag, v, dtarg))
+    else:
+        if dtarg is not None:
+            r, _, e = guarded(lambda: line.set_datatype(tag, dtarg))
+            if r != "ok":
+                raise MachineryError("set_datatype(%s) failed: %s" % (mode, e))
+        if how == 1 and carrier not in ("H", "HH"):
+            r, _, e = guarded(lambda: setattr(line, tag, v))
+        else:
+            r, _, e = guarded(lambda: line.set(tag, v))
+    exc.append(e)
+    case["set"] = r
+    if r != "ok" or tag not in line._data:
+        return case, info
+    if nadd == 2:
+        v2 = mk(val["py"])
+        r, _, e = guarded(lambda: line.add(tag, v2, dtarg if how == 0 else None))
+        exc.append(e)
+        case["add2"] = r
+        if r == "ok":
+            case["nadd"] = 2
+    assigned = v if case["nadd"] == 1 else [v, v]
+    r, dt, e = guarded(lambda: line.get_datatype(tag))
+    exc.append(e)
+    case["dt"] = dt if r == "ok" else "!" + r
+    r, _, e = guarded(lambda: line.validate_field(tag))
+    exc.append(e)
+    case["vf"] = r
+    r, _, e = guarded(lambda: line.validate())
+    exc.append(e)
+    case["val"] = r
+
+    cache = {}
+
+    def readback(text, how_parse):
+        key = (text, how_parse)
+        if key in cache:
+            return cache[key]
+        rb = {"res": "-", "dt": "-", "eq": "-", "eqv": "-"}
+
+        def parse():
+            if how_parse == "line":
+                l2 = gfapy.Line(text, vlevel=lvl)
+            else:
+                g2 = gfapy.Gfa(text, vlevel=lvl)
+                l2 = _carrier_of(g2, carrier)
+            return l2.get(tag), l2.get_datatype(tag)
+        r, got, e = guarded(parse)
+        exc.append(e)
+        rb["res"] = r
+        if r == "ok":
+            v2, dt2 = got
+            rb["dt"] = str(dt2)
+            r3, cur, e = guarded(lambda: line.get(tag))
+            rb["eq"] = _tri(r3, r3 == "ok" and _same_value(v2, cur))
+            if not (isinstance(v, str) and dt2 not in ("Z", "A")):
+                rb["eqv"] = "T" if _same_value(v2, assigned) else "F"
+        cache[key] = rb
+        return rb
+
+    # the base record: the line's own field_to_s (one written tag per stored value)
+    r, w, e = guarded(lambda: line.field_to_s(tag, tag=True))
+    exc.append(e)
+    case["w"] = r
+    parts = w.split("\t") if r == "ok" else []
+    if parts:
+        case["wchars"] = list(parts[0])
+    outs = []
+    empty_rb = {"res": "-", "dt": "-", "eq": "-", "eqv": "-"}
+    wd = tlc.WORK
+    first = True
+    for name, fn, how_parse in _gfa_write_paths(gfa, line, carrier, wd):
+        r, text, e = guarded(fn)
+        exc.append(e)
+        if r != "ok":
+            obs = [{"w": r, "wchars": [], "s": r, "mark": False, "rb": empty_rb, "n": 0}]
+        else:
+            occ, mark = _occurrences(text, carrier, tag)
+            rb = readback(text, how_parse) if not mark else empty_rb
+            if mark or not occ:
+                obs = [{"w": "Error" if mark else "ok", "wchars": [], "s": "ok", "mark": mark, "rb": rb, "n": len(occ)}]
+            else:
+                obs = [{"w": "ok", "wchars": list(x), "s": "ok", "mark": False, "rb": rb, "n": len(occ)} for x in occ]
+        if first:
+            # str(line) (a repeated header tag: str(gfa)) completes the base record, as in a "val" case
+            first = False
+            info["base"] = ["field_to_s", name]
+            case["s"], case["mark"], case["rb"] = obs[0]["s"], obs[0]["mark"], obs[0]["rb"]
+        for o in obs:
+            k = json.dumps(o, sort_keys=True)
+            hit = [i for i, (kk, _) in enumerate(outs) if kk == k]
+            if hit:
+                info["vias"][hit[0]].append(name)
+            else:
+                outs.append((k, o))
+                info["vias"].append([name])
+    # the further tags of field_to_s of a repeated tag
+    for x in parts[1:]:
+        o = {"w": "ok", "wchars": list(x), "s": case["s"], "mark": case["mark"], "rb": case["rb"], "n": len(parts)}
+        k = json.dumps(o, sort_keys=True)
+        if not any(kk == k for kk, _ in outs):
+            outs.append((k, o))
+            info["vias"].append(["field_to_s"])
+    case["outs"] = [o for _, o in outs]
+    return case, info
+
+
 # ---- tag histories: one custom tag through set / delete / set(None) / set_datatype
 
 NOVAL = _vd("none")
@@ -1645,8 +2271,96 @@ def check_histories(out, tier, seed):
     return n
 
 
+def gvalue_jobs(tier, seed):
+    """The value table of C20 on the carriers GCARRIERS.  Quick tier: every (value, mode) on the
+    header at two of the four levels, on the repeated header tag and the connected lines at one."""
+    rnd = random.Random(seed + 2020)
+    jobs = []
+    k = 0
+    for val, modes in c20_values(tier, seed):
+        for mode in modes:
+            k += 1
+            for ci, carrier in enumerate(GCARRIERS):
+                if carrier == "HH" and val["v"]["k"] == "str" and mode not in ("new", "Z", "A"):
+                    # encoded strings added to a repeated tag stay encoded inside the FieldArray: the
+                    # comparison with the parsed read-back would compare representations, not values
+                    continue
+                if tier == "quick":
+                    if carrier == "H":
+                        lvls = [k % 4, (k + 2 + (k // 4) % 2) % 4]
+                    elif carrier == "HH":
+                        lvls = [(k + 1) % 4]
+                    else:
+                        lvls = [(k + ci) % 4] if (k + ci) % 2 == 0 else []
+                elif carrier == "H":
+                    lvls = [0, 1, 2, 3]
+                elif carrier == "HH":
+                    lvls = [1 + k % 2, 3 * (k % 2)]
+                else:
+                    lvls = [k % 2, 2 + (k + ci) % 2]
+                for lvl in lvls:
+                    jobs.append((len(jobs), lvl, mode, val, carrier, (k + lvl) % 2))
+    return jobs
+
+
+def check_gvalues(out, tier, seed):
+    jobs = gvalue_jobs(tier, seed)
+    res = _pmap(run_gvalue, jobs)
+    rejects, n = validate_cases("gval", [r[0] for r in res], "fields-gval")
+    groups = {}
+    nontrivial = set()
+    npaths = 0
+    for (c, info), j in zip(res, jobs):
+        npaths += sum(len(v) for v in info["vias"])
+        if c["outs"] and all(o["rb"]["res"] == "ok" for o in c["outs"]):
+            nontrivial.add((json.dumps(j[3]["py"]), j[2], j[4]))
+    for cid, (clauses, at) in sorted(rejects.items()):
+        c, info = res[cid]
+        _, lvl, mode, val, carrier, how = jobs[cid]
+        vias = info["vias"][at - 1] if at and at <= len(info["vias"]) else info.get("base", ["field_to_s"])
+        o = c["outs"][at - 1] if at else c
+        kind = val["v"]["k"] + "/" + val["v"]["el"]
+        pattern = (c["set"], c["add2"], c["vf"], c["val"], o["w"], o["s"], o["mark"], o["rb"]["res"], o["rb"]["dt"] == c["dt"],
+                   o["rb"]["eq"], o["rb"]["eqv"], o.get("n", 1) == c["nadd"])
+        key = (",".join(clauses), kind, mode, carrier, tuple(sorted(set(vias))), pattern)
+        g = groups.setdefault(key, dict(levels=set(), n=0, ex=None, values=set()))
+        g["levels"].add(lvl)
+        g["n"] += 1
+        if len(g["values"]) < 12:
+            g["values"].add(json.dumps(val["py"]))
+        if g["ex"] is None:
+            g["ex"] = (cid, c, info, o, vias)
+    for key, g in sorted(groups.items(), key=lambda kv: str(kv[0])):
+        cid, c, info, o, vias = g["ex"]
+        obs = {k: c[k] for k in ("set", "add2", "dt", "vf", "val", "nadd")}
+        obs.update(path=sorted(set(vias)), written="".join(o["wchars"]), w=o["w"], s=o["s"], mark=o["mark"], rb=o["rb"],
+                   occurrences=o.get("n", 1), written_by_field_to_s="".join(c["wchars"]))
+        pyv = json.dumps(jobs[cid][3]["py"])
+        out.violations.append(dict(
+            family=FAM, kind="gval", clauses=key[0].split(","),
+            input="value=%s tag=%s carrier=%s written through %s" % (pyv, key[2], key[3], "/".join(sorted(set(vias)))),
+            api="Gfa + Line.set/add + str(gfa)/gfa.lines/gfa.headers/to_file/to_gfa*_s/to_gfa2/clone", levels=sorted(g["levels"]),
+            occurrences=g["n"], values_like_this=sorted(g["values"]),
+            gcase=dict(lvl=jobs[cid][1], mode=key[2], val=jobs[cid][3], carrier=key[3], how=jobs[cid][5]), observed=obs,
+            exc=[e for e in info["exc"] if e],
+            what="%s: xx(%s) = %s on %s of a Gfa, written through %s at vlevel %s (%d cases like this) -> %s" % (
+                key[0], key[2], pyv, {"H": "the header", "HH": "the header (tag added twice)", "gS": "a connected segment",
+                                      "gL": "a connected link"}[key[3]],
+                "/".join(sorted(set(vias))), sorted(g["levels"]), g["n"], json.dumps(obs))))
+    out.add_cov(gfa_tag_cases=len(jobs), gfa_tag_cases_written_and_read_back_through_every_path=len(nontrivial),
+                gfa_write_path_observations=npaths, gfa_tag_carriers=len(GCARRIERS))
+    out.add_cov(evaluations=len(jobs), cases_validated_by_tlc=n, distinct_nontrivial=len(nontrivial))
+    if res:
+        c, info = res[len(res) // 2]
+        j = jobs[len(res) // 2]
+        out.samples.append({"value": j[3]["py"], "mode": j[2], "vlevel": j[1], "carrier": j[4],
+                            "written": ["".join(o["wchars"]) for o in c["outs"]], "paths": info["vias"]})
+    return n
+
+
 def check_c20(out, tier, seed):
     _check_values(out, tier, seed)
+    check_gvalues(out, tier, seed)
     check_histories(out, tier, seed)
     out.cov["rule"] = (out.cov["rule"] + "; tag history = (initial tag, sequence of set/delete/set(None)/"
                        "set_datatype calls, vlevel, stand-alone or connected line), judged after every call; "
@@ -1748,14 +2462,39 @@ def replay(prop, v, path):
             print("  %-8s %-12s %s -> %s%s%s" % (e["k"], e["c"], json.dumps(val) if val else "", e["res"],
                                                " (" + exc + ")" if exc else "", " [# INVALID]" if e["mark"] else ""))
         rej, _ = validate_cases("prog", [case], "fields-replay")
+    elif kind == "dprog":
+        p = v["dprogram"]
+        lst = run_derived_program((p["doc"], p["op"], p["lvl"], tuple(p["codes"]), p["offset"], p.get("seqfield", False)))
+        hit = [(c, i) for c, i in lst if i["subject"] == p["subject"]]
+        if not hit:
+            print("subject %s not found" % p["subject"])
+            return 2
+        case, info = hit[0]
+        print("  %s, %s at vlevel %d: subject %s = %r, line.vlevel = %d" % (
+            p["doc"], p["op"], p["lvl"], p["subject"], info["text"], case["linelvl"]))
+        for e, (val, exc) in zip(case["ev"], info["vals"]):
+            print("  %-8s %-12s %s -> %s%s%s" % (e["k"], e["c"], json.dumps(val) if val else "", e["res"],
+                                               " (" + exc + ")" if exc else "", " [# INVALID]" if e["mark"] else ""))
+        rej, _ = validate_cases("prog", [case], "fields-replay")
+    elif kind == "gval":
+        c = v["gcase"]
+        case, info = run_gvalue((0, c["lvl"], c["mode"], c["val"], c["carrier"], c["how"]))
+        print("  ", {k: case[k] for k in ("set", "add2", "dt", "vf", "val", "w", "s", "mark", "rb")}, "".join(case["wchars"]))
+        for o, vias in zip(case["outs"], info["vias"]):
+            print("   %s: %s %r%s occurrences %d read back %s" % ("/".join(sorted(set(vias))), o["s"], "".join(o["wchars"]),
+                                                                " [# INVALID]" if o["mark"] else "", o["n"], o["rb"]))
+        rej, _ = validate_cases("gval", [case], "fields-replay")
     elif kind == "lvl":
-        case, info = run_doc((0, v["doc"]))
+        case, info = run_doc((0, v["doc"], v["opdoc"], v["op"]) if v.get("op") else (0, v["doc"]))
         for k, x in enumerate(info):
             print("  vlevel %d: %s" % (k, x))
         rej, _ = validate_cases("lvl", [case], "fields-replay")
     elif kind == "clone":
-        case, info = run_clone((0, v["subject"]))
-        print("  ", info, {k: case[k] for k in ("cl", "eq", "isconn", "gfa")})
+        case, info = run_clone((0, v["subject"], tuple(v.get("reads", []))))
+        print("  ", info, {k: case[k] for k in ("cl", "eq", "eqr", "isconn", "gfa")})
+        for p, st in zip(v.get("reads", []), case["steps"]):
+            print("   %-14s -> %s  clone == original: %s  original == clone: %s  texts kept: %s" % (
+                p, st["res"], st["eq"], st["eqr"], st["same"]))
         rej, _ = validate_cases("clone", [case], "fields-replay")
     elif kind == "edit":
         case, info = run_edit((0, v["subject"], v["target"], v["edit"]))
@@ -1909,6 +2648,45 @@ def selftest(mutant=True):
     _expect("hist", c, None, "hist: declared datatype, then a datatype that cannot hold the value", fails)
     d = copy.deepcopy(c); d["steps"][2]["o"].update(val="ok", vf="ok")
     _expect("hist", d, "C20.unrepresentable-emitted", "hist: pretend validate accepted 'hello' as i", fails)
+    # ---- C20: a tag of a line of a Gfa, written through every path
+    c, _ = run_gvalue((0, 2, "J", v_ints([(0, 0, 1), (0, 0, 2)], False), "H", 0))
+    _expect("gval", c, None, "gval: header tag declared J holding [1, 2]", fails)
+    d = copy.deepcopy(c); d["outs"][0].update(wchars=list("xx:B:C,1,2"))
+    _expect("gval", d, "C20.datatype", "gval: pretend the Gfa wrote the tag as B", fails)
+    d = copy.deepcopy(c); d["outs"][0]["rb"] = dict(d["outs"][0]["rb"], dt="B")
+    _expect("gval", d, "C20.readback", "gval: pretend it is read back as B", fails)
+    d = copy.deepcopy(c); d["outs"][0]["n"] = 0
+    _expect("gval", d, "C20.readback", "gval: pretend the Gfa did not write the tag", fails)
+    c, _ = run_gvalue((0, 1, "new", v_str("abc"), "HH", 1))
+    _expect("gval", c, None, "gval: header tag added twice", fails)
+    d = copy.deepcopy(c); d["outs"][0]["n"] = 1
+    _expect("gval", d, "C20.readback", "gval: pretend only one of two values was written", fails)
+    # ---- C19: equality after reads
+    sub = dict(mode="line", text=DT_LINES1[2], version="gfa1", vlevel=0, prep=None)
+    c, _ = run_clone((0, sub, ("get.clone", "str.orig")))
+    _expect("clone", c, None, "clone: vlevel 0 link, clone read, then compared", fails)
+    d = copy.deepcopy(c); d["steps"][0].update(eq="F")
+    _expect("clone", d, "C19.not-equal", "clone: pretend != after reading the clone", fails)
+    d = copy.deepcopy(c); d["steps"][1].update(eqr="F")
+    _expect("clone", d, "C19.not-equal", "clone: pretend original != clone after str", fails)
+    d = copy.deepcopy(c); d["eqr"] = "F"
+    _expect("clone", d, "C19.not-equal", "clone: pretend original != clone at cloning time", fails)
+    d = copy.deepcopy(c); d["steps"][0].update(res="Error")
+    _expect("clone", d, "C19.read-rejected", "clone: pretend reading the clone raised", fails)
+    # ---- C18: derived lines, operations at every level
+    lst = run_derived_program(("d1", "multiply", 2, ("set.wrongsyntax", "str"), 0, False))
+    c = [x for x, i in lst if i["subject"].endswith("L.xx")][-1]
+    _expect("prog", c, None, "dprog: link made by multiply at level 2", fails)
+    d = copy.deepcopy(c); d["linelvl"] = 0
+    _expect("prog", d, "C18.level-not-propagated", "dprog: pretend the copy works at level 0", fails)
+    d = copy.deepcopy(c); d["ev"][1].update(res="ok", mark=False)
+    _expect("prog", d, "C18.level2-not-at-write", "dprog: pretend the copy wrote the invalid tag silently", fails)
+    c, _ = run_doc((0, DDOCS["d1"]["lines"], "d1", "multiply"))
+    _expect("lvl", c, None, "lvl: multiply at every level", fails)
+    d = copy.deepcopy(c); d["r"][3].update(op="Error", lines=[], dig="-")
+    _expect("lvl", d, "C18.level-dependence", "lvl: pretend multiply is refused at level 3", fails)
+    d = copy.deepcopy(c); d["r"][1]["lines"] = d["r"][1]["lines"][:-1]
+    _expect("lvl", d, "C18.level-dependence", "lvl: pretend level 1 wrote one line less after multiply", fails)
     # ---- a seeded mutant of gfapy: clone copies lists shallowly (survives the test-suite)
     if mutant:
         import shutil, subprocess, tempfile
@@ -1940,7 +2718,9 @@ def selftest(mutant=True):
         finally:
             shutil.rmtree(tmp, ignore_errors=True)
     print("selftest fields: %s" % ("PASS" if not fails else "FAIL " + repr(fails)))
-    return 0 if not fails else 1
+    # (harness/selftest.py recognises a failure by a string starting with FAIL; as an exit status a
+    # string is a failure too)
+    return 0 if not fails else "FAIL " + repr(fails)
 
 
 if __name__ == "__main__":
